@@ -418,6 +418,62 @@ fn ack_accounting_partial_reads() {
     core::mem::forget(s);
     core::mem::forget(e);
 }
+/// An EMPTY Push (older peers send them) carries no data but used up a unit of the peer's credit:
+/// the reader keeps waiting for data, counts the frame, and acknowledges when that frame is the one
+/// that reaches the threshold (seed C04c: counted, but the Acknowledge was left to the next data
+/// frame - which a sender without credit can never send).
+fn ack_accounting_empty_push() {
+    let threshold: u32 = kani::any();
+    let since: u32 = kani::any();
+    kani::assume(threshold >= 1 && since < threshold);
+    let (mut s, mut e) = mk_stream(1, 2, threshold, since, false);
+    e.inbound_tx.as_ref().unwrap().try_send(Bytes::new()).unwrap();
+    let r = cx_poll(|cx| s.poll_for_push(cx));
+    vassert!(r.is_pending(), "P:C05 an empty Push was reported as data or as end-of-stream");
+    match e.out_rx.try_recv() {
+        Ok(Message::Binary(b)) => {
+            vassert!(classify(&b[..]) == Out::Frame { op: OpCode::Acknowledge, id: FLOW }, "P:C03 consuming a frame emitted something other than an Acknowledge of its flow");
+            vassert!(be32(&b[..], 5) == since + 1, "P:C03 Acknowledge does not carry exactly the frames consumed since the last one");
+            vassert!(since + 1 >= threshold, "P:C03 Acknowledge sent before the threshold");
+            vassert!(s.psh_recvd_since == 0, "P:C03 counter not reset after an Acknowledge (frames would be acknowledged twice)");
+            kani::cover!(true, "?acknowledge emitted for an empty Push");
+        }
+        Ok(_) => vfail!("P:C03 consuming a frame emitted a non-frame message"),
+        Err(_) => {
+            vassert!(since + 1 < threshold, "P:C04 no Acknowledge although the threshold was reached (by an empty Push): the sender's credit is never replenished");
+            vassert!(s.psh_recvd_since == since + 1, "P:C03 consumed frame not counted");
+            kani::cover!(true, "?below threshold");
+        }
+    }
+    vassert!(pop_out(&mut e.out_rx) == Out::Nothing, "P:C03 more than one Acknowledge for one consumed frame");
+    kani::cover!(true, "accounting evaluated");
+    core::mem::forget(s);
+    core::mem::forget(e);
+}
+/// A 3-byte frame taken through fill_buf / consume(k), k = 1 or 2: the next fill_buf offers exactly
+/// the unread tail (seed C02d: a consume of more than half kept the already delivered head).
+fn bufread_partial_consume() {
+    let (mut s, mut e) = mk_stream(1, 2, 2, 0, false);
+    let f: [u8; 3] = kani::any();
+    e.inbound_tx.as_ref().unwrap().try_send(Bytes::copy_from_slice(&f)).unwrap();
+    let n1 = cx_poll(|cx| match Pin::new(&mut s).poll_fill_buf(cx) {
+        Poll::Ready(Ok(b)) => b.len(),
+        _ => 99,
+    });
+    vassert!(n1 == 3, "P:C02 the queued frame was not offered whole");
+    let k: usize = kani::any();
+    kani::assume(k == 1 || k == 2);
+    Pin::new(&mut s).consume(k);
+    let ok = cx_poll(|cx| match Pin::new(&mut s).poll_fill_buf(cx) {
+        Poll::Ready(Ok(b)) => b.len() == 3 - k && b[0] == f[k] && b[b.len() - 1] == f[2],
+        _ => false,
+    });
+    vassert!(ok, "P:C02 after a partial consume the next bytes offered are not the unread tail of the frame (bytes lost / delivered twice)");
+    kani::cover!(k == 2, "?more than half of the frame consumed");
+    kani::cover!(true, "partial consume evaluated");
+    core::mem::forget(s);
+    core::mem::forget(e);
+}
 /// The order inside the waking operation: when the blocked writer's waker fires, the reason for
 /// the wake-up (credit / closed flag) must already be visible - a writer re-polled at that very
 /// moment (another thread) would otherwise find nothing, register again and sleep for ever.
@@ -691,6 +747,8 @@ h!(c02_r_rem2_q0_cap1, 8, r_read::<2>(0, 1));
 h!(c02_r_rem2_q2_cap3, 8, r_read::<2>(2, 3));
 h!(c02_r_uninit_rem0_q1_cap3, 8, r_read_x::<0>(1, 3, true));
 h!(c02_r_uninit_rem2_q0_cap1, 8, r_read_x::<2>(0, 1, true));
+h!(c03_ack_accounting_empty_push, 8, ack_accounting_empty_push());
+h!(c02_r_bufread_partial_consume, 8, bufread_partial_consume());
 h!(c12_wake_after_credit, 8, wake_after_effect(false));
 h!(c12_wake_after_close, 8, wake_after_effect(true));
 h!(c03_ack_accounting, 8, ack_accounting());
